@@ -452,6 +452,12 @@ class CarbonClientFactory(with_metaclass(PluginRegistrar, ReconnectingClientFact
       for metric, datapoint in metrics:
           state.events.metricGenerated(metric, datapoint)
       self.queue.clear()
+      # The queue is empty now: if it had reported being full let the receivers
+      # go, nothing will be sent from it that could do so later. Without any
+      # usable destination they stay paused until one comes back.
+      if (self.queueFull.called and not self.queueHasSpace.called and
+              self.router.countDestinations()):
+        self.queueHasSpace.callback(self.queueSize)
 
   def disconnect(self):
     self.queueEmpty.addCallbacks(lambda result: self.stopConnecting(), log.err)
